@@ -1,5 +1,7 @@
 import Driver.Proto
 import PqModel.FileCodecsTyped
+import PqModel.FileCodecsGo
+import PqModel.LogicalTime
 
 /-! C01 ops: one data page of a column of any physical type × value encoding, in the data page v1
 body framing or the v2 layout, through the file model's writer (`mkPage` + `pack`: MIRROR encoders)
@@ -64,7 +66,9 @@ def showTriple (t : PType) (x : Triple) : String :=
 /-- `c01.enc <ptype> <flba len> <enc> <v1 0/1> <maxrep> <maxdef> <reps> <defs> <vals: hex,...>` ->
     `ok <admissible 0/1> <reps hex> <defs hex> <vals hex>` (v1: the whole body is in the last
     field); `c01.dec <ptype> <flba len> <enc> <v1 0/1> <maxrep> <maxdef> <nvals> <reps hex> <defs hex>
-    <vals hex>` -> `ok <triples v/rep/def,...>` or `err`. -/
+    <vals hex>` -> `ok <triples v/rep/def,...>` or `err`; `c01.decgo` = the same page through the
+    reader built from the MIRRORS of the Go decoders (`mkCodecGo`), the recycled decode buffers
+    holding `0xA5…` / `7,7,…`. -/
 def handle (toks : List String) : Option String :=
   match toks with
   | ["c01.enc", pt, fl, en, v1, mr, md, reps, defs, vals] => some <|
@@ -81,7 +85,7 @@ def handle (toks : List String) : Option String :=
         | some p =>
           let c := mkCodec cs.val (plainOf t) (v1 == "1") (mr, md) id some
           let g := c.pack (mkPage c (mr, md) p false (c.encV (pageVals p)))
-          let adm := pageOK c cs.val.okP (okSOf (v1 == "1") (mr, md)) (mr, md) p &&
+          let adm := pageOK c (fun _ => true) cs.val.okP (okSOf (v1 == "1") (mr, md)) (mr, md) p &&
             (pageVals p).all cs.val.okV
           s!"ok {if adm then 1 else 0} {hexN g.reps} {hexN g.defs} {hexN g.vals}"
     | _, _, _, _, _, _, _ => "bad-op"
@@ -100,6 +104,38 @@ def handle (toks : List String) : Option String :=
         | none => "err"
         | some p => s!"ok {showList (showTriple t) p}"
     | _, _, _, _, _, _, _, _ => "bad-op"
+  | ["c01.decgo", pt, fl, en, v1, mr, md, nv, reps, defs, vals] => some <|
+    match parseNat? fl, venc? en, parseNat? mr, parseNat? md, parseNat? nv, parseHexN? reps, parseHexN? defs,
+        parseHexN? vals with
+    | some fl, some e, some mr, some md, some nv, some reps, some defs, some vals =>
+      match ptype? pt fl with
+      | none => "bad-op"
+      | some t =>
+        let cs : ColSpec := ⟨t, e⟩
+        if !cs.supported then "unsupported" else
+        let stale : Plain.Bytes := List.replicate 97 0xA5
+        let c := mkCodecGo (cs.goVal stale) (goPlainOf t) (List.replicate 13 7) (v1 == "1") (mr, md) id some
+        let g : Page (List Nat) := ⟨nv, reps, defs, false, vals⟩
+        match readPage false c (mr, md) [] g with
+        | none => "err"
+        | some p => s!"ok {showList (showTriple t) p}"
+    | _, _, _, _, _, _, _, _ => "bad-op"
+  | ["c01.time", u, sec, nsec] => some <|
+    -- `c01.time <ms|us|ns> <sec> <nsec>` -> `ok <stored int64> <read-back sec> <read-back nsec>`
+    match (match u with | "ms" => some LogicalTime.TUnit.milli | "us" => some .micro | "ns" => some .nano | _ => none),
+        parseInt? sec, parseNat? nsec with
+    | some u, some sec, some nsec =>
+      let v := LogicalTime.toUnit u ⟨sec, nsec⟩
+      let t := LogicalTime.ofUnit u v
+      s!"ok {v.toInt} {t.sec} {t.nsec}"
+    | _, _, _ => "bad-op"
+  | ["c01.date", sec, nsec] => some <|
+    match parseInt? sec, parseNat? nsec with
+    | some sec, some nsec =>
+      let d := LogicalTime.toDays ⟨sec, nsec⟩
+      let t := LogicalTime.ofDays d
+      s!"ok {d.toInt} {t.sec} {t.nsec}"
+    | _, _ => "bad-op"
   | _ => none
 
 end Driver.Ops.C01
